@@ -131,7 +131,10 @@ class Trend(BaseGridder):
         coordinates, data, weights = check_fit_input(coordinates, data, weights)
         easting, northing = n_1d_arrays(coordinates, 2)
         self.region_ = get_region((easting, northing))
-        jac = self.jacobian((easting, northing), dtype=data.dtype)
+        # Use a floating point type even if the data are integers so that the
+        # coordinates aren't truncated
+        dtype = np.result_type(data.dtype, "float32")
+        jac = self.jacobian((easting, northing), dtype=dtype)
         self.coef_ = least_squares(jac, data, weights, damping=None)
         return self
 
@@ -158,7 +161,10 @@ class Trend(BaseGridder):
         check_is_fitted(self, ["coef_"])
         easting, northing = n_1d_arrays(coordinates, 2)
         shape = np.broadcast(*coordinates[:2]).shape
-        data = np.zeros(easting.size, dtype=easting.dtype)
+        # Use a floating point type for the predictions even if the
+        # coordinates are integers
+        dtype = np.result_type(easting.dtype, "float32")
+        data = np.zeros(easting.size, dtype=dtype)
         combinations = polynomial_power_combinations(self.degree)
         for coef, (i, j) in zip(self.coef_, combinations):
             data += (easting**i) * (northing**j) * coef
